@@ -17,10 +17,10 @@ Modes == {"gregorian", "360day", "365day", "366day"}
 
 \* the 7 spellings accepted by Calendar.set_mode (case-insensitive) + empty = default
 Meaning(sp) ==
-  CASE sp \in {"360day", "360_day"} -> "360day"
-    [] sp \in {"365day", "365_day"} -> "365day"
-    [] sp \in {"366day", "366_day"} -> "366day"
-    [] OTHER -> "gregorian"
+  CASE sp \in {"360day", "360_day", "360DAY", "360_DAY"} -> "360day"
+    [] sp \in {"365day", "365_day", "365DAY", "365_DAY"} -> "365day"
+    [] sp \in {"366day", "366_day", "366DAY", "366_DAY"} -> "366day"
+    [] OTHER -> "gregorian"      \* "gregorian", "GREGORIAN", and the empty spelling (None) = default
 
 IsLeap(m, y) == m = "gregorian" /\ y % 4 = 0 /\ (y % 100 # 0 \/ y % 400 = 0)
 
@@ -98,4 +98,21 @@ WeekOf(m, n) ==
 DaysInYearRange(m, a, b) == IF a > b THEN 0 ELSE YearStart(m, b + 1) - YearStart(m, a)
 \* the library's get_days_since_1_ad: days from 1 Jan 1 AD to the end of year y (0 for y < 1)
 DaysSince1AD(m, y) == IF y < 1 THEN 0 ELSE YearStart(m, y + 1) - YearStart(m, 1)
+
+\* ---- the calendar queries of the library, as a table: what a fresh process that only ever used mode m
+\* computes for query p = [fn, a, b]  (used by Lib.tla / C15 and by the trace specification)
+Fresh(m, p) ==
+  CASE p.fn = "is_leap"        -> <<IF IsLeap("gregorian", p.a) THEN 1 ELSE 0>>   \* mode-independent by design
+    [] p.fn = "days_in_year"   -> <<DaysInYear(m, p.a)>>
+    [] p.fn = "days_in_month"  -> <<DaysInMonth(m, p.a, p.b)>>
+    [] p.fn = "weeks_in_year"  -> <<WeeksInYear(m, p.a)>>
+    [] p.fn = "year_range"     -> <<DaysInYearRange(m, p.a, p.b)>>
+    [] p.fn = "week_start_cal" -> CalOf(m, WeekYearStart(m, p.a))
+    [] p.fn = "week_start_ord" -> OrdOf(m, WeekYearStart(m, p.a))
+    [] p.fn = "since_1ad"      -> <<DaysSince1AD(m, p.a)>>
+    [] p.fn = "months_days"    -> <<DaysInYear(m, p.a), DaysInMonth(m, p.a, 2)>>   \* length of iter_months_days, Feb length
+    [] p.fn = "ord_of_cal"     -> OrdOf(m, DayNumCal(m, p.a, 3, 1))               \* 1 March as an ordinal date
+    [] p.fn = "week_of_cal"    -> WeekOf(m, DayNumCal(m, p.a, 3, 1))
+    [] OTHER -> <<>>
+
 =============================================================================
